@@ -84,7 +84,21 @@ def solve_text(args):
     r, model, backend = "unknown", None, "z3-5.1"
     if kind == "cover":
         rc, dtc, _ = _run_z3_api(text, 4000)
-        return idx, {"sat": "discharged", "unsat": "vacuous"}.get(rc, "undecided"), "z3-5.1", dtc, None, [("z3-5.1", rc, round(dtc, 3))], None
+        tried_c = [("z3-5.1", rc, round(dtc, 3))]
+        if rc == "unknown":
+            # quantified preconditions: look for a SMALL model (all integer constants in [0, b]); the hint only adds constraints, so a
+            # model of the hinted query is a model of the precondition (a hinted `unsat` says nothing and is ignored)
+            import re as _re
+            consts = _re.findall(r"\(declare-fun (\|[^|]+\||\S+) \(\) Int\)", text)
+            for b in (2, 4):
+                extra = "".join(f"(assert (and (<= 0 {c}) (<= {c} {b})))\n" for c in consts)
+                r2, dt2, _ = _run_z3_api(text.replace("(check-sat)", extra + "(check-sat)"), 4000)
+                dtc += dt2
+                tried_c.append((f"z3-5.1-small-model-{b}", r2, round(dt2, 3)))
+                if r2 == "sat":
+                    rc = "sat"
+                    break
+        return idx, {"sat": "discharged", "unsat": "vacuous"}.get(rc, "undecided"), "z3-5.1", dtc, None, tried_c, None
     if has_q:
         # e-matching only first: proves most quantified goals at once; a `sat` answer without MBQI is not trusted
         r1, dt1, _ = _run_z3_api(text, min(Z3_TIMEOUT_MS, 5000), mbqi=False)
